@@ -1,15 +1,32 @@
 //@include prelude/header.rs
 // Unit imports_extract (C14 / C01, extraction part): the functions of src/fixtures/imports.rs that turn a module's
-// AST into the import facts the resolver uses, on the REAL rustpython AST types, for ALL ASTs.
+// AST into the import facts the resolver uses -- extract_fixture_imports, extract_pytest_plugins,
+// is_standard_library_module -- on the REAL rustpython AST types (build/astspec.rs), for ALL ASTs.  Unit
+// imports_closure treats the first two as abstract functions `imports_of` / `plugins_of`; here they are DEFINED
+// (prelude/imports_extract_spec.rs: spec_fixture_imports / imports_core, spec_pytest_plugins).
+//   L1  extract_fixture_imports: imps_v(r@) == spec_fixture_imports(stmts@, pv(file_path), line_index@)  (all five
+//         fields of every record, statement order; top-level statements only, as the code does)
+//       extract_pytest_plugins:  strs_v(r@) == spec_pytest_plugins(stmts@)   (last assignment wins)
+//       is_standard_library_module: r == is_stdlib_name(first_component(module@))
+//   L2  prelude/imports_extract_l2.rs (lemma_C14_*): the stdlib filter sees the path AFTER the dots were prepended
+//       (relative imports are never filtered), only `from .. import` contributes, statement order, last
+//       pytest_plugins assignment wins; 4 proof canaries + 1 exec canary (@as).
+// The point of the contract is the ORDER and the CONDITIONS of the string operations; the operations themselves
+// are assumed specifications over Seq<char> views (prelude/str_dotted.rs S1-S6, prelude/box_asref.rs):
+//   str::repeat, `String + &str` (external_body helper vp_concat: this Verus crashes on the operator),
+//   first piece of str::split(char) (axiom_split_first on iter_slice.rs' vp_split), Int::to_usize, Box::as_ref.
+// ASSUMED in this file: `STDLIB_MODULES.contains(x)` is a function `is_stdlib_name(x@)` of the text (the static
+// Lazy<HashSet> is replaced by the stand-in below; the list's CONTENT is not modelled); get_line_from_offset is a
+// function `line_of_offset` of (offset, line index) (callee stub as in unit ast_helpers; the function itself is
+// under contract in unit line_index).
+// Both loops over `stmts` contain `continue` in nested positions: @forloop (T12) writes them as the `loop` +
+// `Iterator::next` form rustc desugars `for` to.
 use rustpython_parser::ast::{Expr, Stmt, Identifier, Constant, Alias};
 verus! {
 pub mod pre {
 use super::*;
 //@include build/astspec.rs
 //@include prelude/path.rs
-//@include prelude/types.rs
-//@include prelude/dashmap.rs
-//@include prelude/hashset.rs
 //@include prelude/hof.rs
 //@include prelude/strings.rs
 //@include prelude/iter_ext.rs
@@ -64,9 +81,9 @@ impl FixtureDatabase {
 /*@ extract src/fixtures/imports.rs extract_fixture_imports
 @tags C14 C01
 @ret r
-@closure 1 |m: &Identifier| -> (s: String) ensures s@ == idv(m)
-@closure 2 |alias: &Alias| -> (b: bool) ensures b == (idv(&alias.name) == "*"@)
-@closure 3 |alias: &Alias| -> (s: String) ensures s@ == imported_as(*alias)
+@closure map:1 |m: &Identifier| -> (s: String) ensures s@ == idv(m)
+@closure any:1 |alias: &Alias| -> (b: bool) ensures b == (idv(&alias.name) == "*"@)
+@closure map:2 |alias: &Alias| -> (s: String) ensures s@ == imported_as(*alias)
 @wrapexpr 1 `dots + &module` => `Self::vp_concat(dots, &module)` with fn vp_concat(dots: String, module: &String) -> (r: String) ensures r@ == dots@ + module@
 @sig
     ensures imps_v(r@) == spec_fixture_imports(stmts@, pv(file_path), line_index@),
@@ -88,13 +105,6 @@ impl FixtureDatabase {
         assert(stmts@.take(i + 1).last() == *stmt);
         i = i + 1;
     }
-@before continue 1
-    proof {
-        assert(module@ == import_module_path(*import_from));
-        assert(import_core_of(*stmt) is None);
-    }
-@before line 1
-    proof { assert(module@ == import_module_path(*import_from)); }
 @after is_star 1
     proof {
         let ns = import_from.names@;
@@ -107,25 +117,19 @@ impl FixtureDatabase {
     proof { assert(str_views(names@) =~= import_from.names@.map_values(imported_as_fn())); }
 @after push 1
     proof {
-        let v = import_rec_of(*stmt, pv(file_path), line_index@);
-        assert(v is Some);
-        assert(imp_rec_v(imports@.last()).imp.names =~= v->0.imp.names);
-        assert(imp_rec_v(imports@.last()) == v->0);
-        assert(imps_v(imports@) =~= imps_v(imps0).push(v->0));
+        assert(imp_rec_v(imports@.last()).imp.names =~= Seq::<Seq<char>>::empty());
+        assert(imps_v(imports@) =~= imps_v(imps0).push(imp_rec_v(imports@.last())));
     }
 @after push 2
     proof {
-        let v = import_rec_of(*stmt, pv(file_path), line_index@);
-        assert(v is Some);
-        assert(imp_rec_v(imports@.last()) == v->0);
-        assert(imps_v(imports@) =~= imps_v(imps0).push(v->0));
+        assert(imps_v(imports@) =~= imps_v(imps0).push(imp_rec_v(imports@.last())));
     }
 @*/
 
 /*@ extract src/fixtures/imports.rs extract_pytest_plugins
 @tags C14 C01
 @ret r
-@closure 1 |target: &Expr| -> (b: bool) ensures b == is_plugins_name(*target)
+@closure any:1 |target: &Expr| -> (b: bool) ensures b == is_plugins_name(*target)
 @sig
     ensures strs_v(r@) == spec_pytest_plugins(stmts@),
 @before for 1
@@ -188,7 +192,7 @@ impl FixtureDatabase {
 @tags C14
 @as canary_plugins_first_assignment_wins
 @ret r
-@closure 1 |target: &Expr| -> (b: bool) ensures b == is_plugins_name(*target)
+@closure any:1 |target: &Expr| -> (b: bool) ensures b == is_plugins_name(*target)
 @sig
     ensures stmts@.len() == 2 && plugins_value(stmts@[0]) is Some && plugins_value(stmts@[1]) is Some
         ==> strs_v(r@) == plugins_of_value(plugins_value(stmts@[0])->0),
